@@ -62,7 +62,8 @@ var participleYqRules = []*participleYqRule{
 	{"XMLEncodeWithIndent", `to_?xml\([0-9]+\)`, encodeParseIndent(XMLFormat), 0},
 	{"JSONEncodeWithIndent", `to_?json\([0-9]+\)`, encodeParseIndent(JSONFormat), 0},
 
-	{"YamlDecode", `from_?yaml|@yamld|from_?json|@jsond`, decodeOp(YamlFormat), 0},
+	{"YamlDecode", `from_?yaml|@yamld`, decodeOp(YamlFormat), 0},
+	{"JSONDecode", `from_?json|@jsond`, decodeOp(JSONFormat), 0},
 	{"YamlEncode", `to_?yaml|@yaml`, encodeWithIndent(YamlFormat, 2), 0},
 
 	{"JSONEncode", `to_?json`, encodeWithIndent(JSONFormat, 2), 0},
